@@ -21,6 +21,8 @@ type fieldWrite struct {
 	Path   string `json:"path"`
 	Before string `json:"before"`
 	After  string `json:"after"`
+	// Disc: the operator of the planner object that owns the field (its immutable Op / Fn / Func field), if it has one
+	Disc string `json:"disc,omitempty"`
 }
 
 var skipPkgs = []string{"regexp", "sync", "text/template", "context", "time", "reflect"}
@@ -180,7 +182,18 @@ func diffSnap(b, a snap, owner map[string]string) []fieldWrite {
 			root := strings.TrimSuffix(k, "#len")
 			changedRoots = append(changedRoots, root+"*", root+"[", root+"/")
 		}
-		out = append(out, fieldWrite{Field: owner[k], Path: k, Before: clip(bv, 120), After: clip(av, 120)})
+		fw := fieldWrite{Field: owner[k], Path: k, Before: clip(bv, 120), After: clip(av, 120)}
+		if i := strings.LastIndex(k, "/"); i > 0 {
+			if j := strings.Index(owner[k], "."); j > 0 {
+				for _, n := range []string{"Op", "Fn", "Func", "Function"} {
+					if v, ok := b[k[:i]+"/"+owner[k][:j]+"."+n]; ok {
+						fw.Disc = n + "=" + strings.Trim(v, `"`)
+						break
+					}
+				}
+			}
+		}
+		out = append(out, fw)
 	}
 	return out
 }
